@@ -21,7 +21,7 @@
 (*             n_true / n_false (non-vacuity: how often the reference side *)
 (*             was true / false among the definite evaluations)            *)
 (***************************************************************************)
-EXTENDS MiniGringo, Json, IOUtils, FiniteSetsExt, SequencesExt
+EXTENDS MiniGringo, Analysis, Json, IOUtils, FiniteSetsExt, SequencesExt
 
 Rec == ndJsonDeserialize(IOEnv.VERIF_TRACE)
 Lo == atoi(IOEnv.VERIF_LO)          \* this JVM handles lines Lo .. Hi (sharding)
@@ -63,6 +63,16 @@ Numbering(atoms) ==
       n == Len(sq)
       rot == IF n = 0 THEN 0 ELSE Rot % n
   IN [n |-> n, at |-> [j \in 1..n |-> sq[((j - 1 + rot) % n) + 1]]]
+\* value-coherent numbering: atoms over the first base value come first, then those that also use the second, ... so that a
+\* capped core always contains ALL predicates over a sub-base of values (the rotation by the seed picks which values)
+ValueNumbering(atoms) ==
+  LET vs == SetToSeq(BaseValues)
+      m == Len(vs)
+      rot == IF m = 0 THEN 0 ELSE Rot % m
+      pos(v) == LET j == CHOOSE k \in 1..m : vs[k] = v IN ((j - 1 + m - rot) % m) + 1
+      rank(a) == IF Len(a[2]) = 0 THEN 0 ELSE CHOOSE x \in {pos(a[2][k]) : k \in DOMAIN a[2]} : \A y \in {pos(a[2][k]) : k \in DOMAIN a[2]} : x >= y
+      sq == SortSeq(SetToSeq(atoms), LAMBDA a, b : rank(a) < rank(b))
+  IN [n |-> Len(sq), at |-> sq]
 UnIndex(S, nb) == {nb.at[j] : j \in S}
 Indexer(atoms, nb) == [a \in atoms |-> CHOOSE j \in 1..nb.n : nb.at[j] = a]
 
@@ -297,7 +307,7 @@ StableIdx(g, T, inputIdx) ==
 
 StableEnum(gProg, gComp, inputs, extra) ==
   LET atoms == PAtoms(gProg) \cup PAtoms(gComp)
-      nb == TLCEval(Numbering(atoms))
+      nb == TLCEval(ValueNumbering(atoms))
       ix == TLCEval(Indexer(atoms, nb))
       a == TLCEval(IndexTree(gComp, ix))
       b == TLCEval(IndexTree(gProg, ix))
@@ -402,7 +412,7 @@ IsFwd(name) == SubSeq(name, 1, 7) = "forward"
 AllFormulas(fams) == UNION {UNION {{pr.formulas[k].f : k \in DOMAIN pr.formulas} : pr \in Range(fm.problems)} : fm \in Range(fams)}
 StrongEval(r, fams, gL, gR) ==
   LET base == BaseAtomsOf(r.preds)
-      nb == TLCEval(Numbering(base))
+      nb == TLCEval(ValueNumbering(base))
       df == TLCEval(SetToSeq(AllFormulas(fams)))
       \* atoms as integers: base atom k is k in the reference groundings; its h-copy is k, its t-copy nb.n + k in the problems
       ixb == TLCEval(Indexer(base, nb))
@@ -500,7 +510,7 @@ ExternalEval(r, fams) ==
       Ren(q) == IF q \in clash THEN <<q[1] \o "_p", q[2]>> ELSE q
       rprivRen == {Ren(q) : q \in rpriv}
       allAtoms == AtomsOver(pub \cup lpriv \cup rprivRen)
-      nb == TLCEval(Numbering(allAtoms))
+      nb == TLCEval(ValueNumbering(allAtoms))
       ix == TLCEval(Indexer(allAtoms, nb))
       \* atoms of the right program are read through the renaming: aux(v) of the program is aux_p(v) of the interpretation
       ixR == TLCEval([a \in AtomsOver(pub \cup rpriv) |-> ix[<<Ren(AtomPred(a))[1], a[2]>>]])
@@ -595,8 +605,60 @@ EvalExternal(r) ==
   IN IF fams = <<>> THEN <<Skip(r, "C02.forward_refuted_iff_behavioural_difference", "task refused")>>
      ELSE ExternalEval(r, fams)
 
+\* ---------------------------------------------------------------- C11: analyses and task preconditions
+EvalAnalyze(r) ==
+  <<Out(r, "C11.tightness_exact",
+        IF r.tight = Tight(r.rules) THEN OkT
+        ELSE BadT([note |-> "analyze --property tightness disagrees with the dependency-graph definition", anthem |-> r.tight, reference |-> Tight(r.rules)]), ""),
+    Out(r, "C11.regularity_exact",
+        IF r.regular = Regular(r.rules) THEN OkT
+        ELSE BadT([note |-> "analyze --property regularity disagrees with the documented definition", anthem |-> r.regular, reference |-> Regular(r.rules)]), "")>>
+
+RECURSIVE FormPreds(_)
+FormPreds(f) == CASE f.k \in {"true", "false", "cmp"} -> {}
+                  [] f.k = "atom" -> {<<f.p, Len(f.args)>>}
+                  [] f.k = "not" -> FormPreds(f.f)
+                  [] f.k \in {"forall", "exists"} -> FormPreds(f.f)
+                  [] OTHER -> FormPreds(f.l) \cup FormPreds(f.r)
+\* the conditions the property lists; `why` names the first one that fails ("" if none)
+TaskDefect(r, bypass) ==
+  LET inp == PredsOf(r.inputs)
+      outp == PredsOf(r.outputs)
+      pub == inp \cup outp
+      rpriv == PredsOf(r.rpreds) \ pub
+      lpriv == PredsOf(r.lpreds) \ pub
+      ugA == SelectSeq(r.ug, LAMBDA e : e.k = "formula" /\ e.a.role = "assumption")
+      phs == SelectSeq(r.ug, LAMBDA e : e.k = "placeholder")
+  IN IF inp \cap outp # {} THEN "input and output declarations overlap"
+     ELSE IF ~bypass /\ ~Tight(r.right) THEN "the program is not tight"
+     ELSE IF PrivateRecursion(r.right, rpriv) THEN "the program has private recursion"
+     ELSE IF HeadPreds(r.right) \cap inp # {} THEN "an input predicate heads a rule of the program"
+     ELSE IF \E i, j \in DOMAIN phs : phs[i].c = phs[j].c /\ phs[i].s # phs[j].s THEN "a placeholder is declared with two sorts"
+     ELSE IF \E i \in DOMAIN ugA : ~(FormPreds(ugA[i].a.f) \subseteq inp) THEN "a user-guide assumption mentions a non-input predicate"
+     ELSE IF r.left_is_program /\ ~bypass /\ ~Tight(r.left) THEN "the specification program is not tight"
+     ELSE IF r.left_is_program /\ PrivateRecursion(r.left, lpriv) THEN "the specification program has private recursion"
+     ELSE IF r.left_is_program /\ HeadPreds(r.left) \cap inp # {} THEN "an input predicate heads a rule of the specification program"
+     ELSE IF ~r.left_is_program /\ \E i \in DOMAIN r.left : r.left[i].role = "assumption" /\ FormPreds(r.left[i].f) \cap outp # {}
+          THEN "a specification assumption mentions an output predicate"
+     ELSE ""
+EvalAccept(r) ==
+  [i \in DOMAIN r.families |->
+     LET fm == r.families[i]
+         why == TaskDefect(r, fm.flags.bypass)
+         refused == "error" \in DOMAIN fm
+         emitted == "problems" \in DOMAIN fm
+     IN IF fm.flags.mu THEN Skip(r, "C11.refused_iff_a_condition_fails", "mu representation (not in the listed conditions)")
+        ELSE IF why # "" /\ ~refused
+             THEN Out(r, "C11.refused_iff_a_condition_fails", BadT([note |-> "task accepted although " \o why]), ToString(fm.flags))
+        ELSE IF why = "" /\ r.left_is_program /\ ~emitted
+             THEN Out(r, "C11.refused_iff_a_condition_fails", BadT([note |-> "task refused although every listed condition holds", error |-> IF refused THEN fm.error ELSE "panic"]), ToString(fm.flags))
+        ELSE IF refused /\ emitted THEN Out(r, "C11.refused_iff_a_condition_fails", BadT([note |-> "error and problems"]), "")
+        ELSE Out(r, "C11.refused_iff_a_condition_fails", [OkT EXCEPT !.t = IF why = "" THEN 1 ELSE 0, !.f = IF why = "" THEN 0 ELSE 1], why)]
+
 EvalRecord(r) ==
   CASE r.kind = "rule" -> EvalRule(r)
+    [] r.kind = "analyze" -> EvalAnalyze(r)
+    [] r.kind = "external" /\ Prop = "C11" -> EvalAccept(r)
     [] r.kind = "external" -> EvalExternal(r)
     [] r.kind = "strong" -> EvalStrong(r)
     [] r.kind = "completion" -> EvalCompletion(r)
